@@ -493,6 +493,9 @@ def generate_peep():
         if i >= len(enum) or enum[i] != r[0]:
             indexed = False     # peepBValOpInfo[bop].op == bop is asserted by the C
         ops.append("mkOp %s %s %s" % (pop(r[0]), r[1], " ".join(pop(x) for x in r[2:])))
+    sent_arity = int(rows[-1][1])
+    at_sentinel = [pop(x) for i, x in enumerate(enum) if i == len(rows) - 1]
+    beyond = [pop(x) for i, x in enumerate(enum) if i > len(rows) - 1]
     sel = bool(re.search(r"if\s*\(foldfloats\)\s*peepBValTbl\s*=\s*&foamBValOpInfoTableFast\[0\];\s*else\s+peepBValTbl\s*=\s*&foamBValOpInfoTableSlow\[0\];", src))
     guard = bool(re.search(r"#define\s+peepNoSideFx\(foam\)\s*\(!foamHasSideEffect\(foam\)\)", open(C.SRC + "/of_peep.c").read()))
     L = ["(* GENERATED on every run by tools/c02_gen.py from <repo>/aldor/aldor/src/of_peep.c - do not edit *)",
@@ -505,6 +508,10 @@ def generate_peep():
          "Definition peep_ops : list oprow := [\n  %s\n]." % ";\n  ".join(ops),
          "(* the rows stand at the index of their enum value (the C indexes the table by it) *)",
          "Definition peep_ops_indexed : bool := %s." % ("true" if indexed else "false"),
+         "(* enum values with no row: the one indexing the sentinel row {-1, arity, ...}, and those behind the table *)",
+         "Definition peep_ops_at_sentinel : list pop := [%s]." % "; ".join(at_sentinel),
+         "Definition peep_sentinel_arity : Z := %d." % sent_arity,
+         "Definition peep_ops_beyond_table : list pop := [%s]." % "; ".join(beyond),
          "(* peepProg selects Fast iff foldfloats; peepNoSideFx(x) is !foamHasSideEffect(x) *)",
          "Definition peep_table_selection : bool := %s." % ("true" if sel else "false"),
          "Definition peep_guard_is_has_side_effect : bool := %s." % ("true" if guard else "false")]
